@@ -120,32 +120,46 @@ Print Assumptions C20_last_bytes_errors.
 
 (* ------------------------------------------------------------------ errno filters *)
 
-(* For every outcome of os.makedirs — every errno e: success iff makedirs succeeded, or
-   e = EEXIST and the path is a directory; every other error is re-raised unchanged. *)
+(* For every outcome of os.makedirs — every OSError instance e, whatever its class and errno:
+   success iff makedirs succeeded, or e.errno = EEXIST and the path is a directory; every other
+   error is re-raised unchanged (same class, same errno).  Only e.errno is looked at. *)
 Theorem C20_ensure_tree_errno_filter :
   forall (W H : Type) (rt : runtime W H) (path : bytes) (mode : Z) (w w1 : W) (r : ores unit),
   rt_makedirs rt path mode w = (w1, r) ->
   (forall u, r = OOk u -> ensure_tree rt path mode w = (w1, OOk tt)) /\
-  (forall e, r = OErr e -> e = errno_EEXIST -> rt_isdir rt path w1 = true ->
+  (forall e, r = OErr e -> os_errno e = errno_EEXIST -> rt_isdir rt path w1 = true ->
              ensure_tree rt path mode w = (w1, OOk tt)) /\
-  (forall e, r = OErr e -> e = errno_EEXIST -> rt_isdir rt path w1 = false ->
+  (forall e, r = OErr e -> os_errno e = errno_EEXIST -> rt_isdir rt path w1 = false ->
              ensure_tree rt path mode w = (w1, OErr e)) /\
-  (forall e, r = OErr e -> e <> errno_EEXIST -> ensure_tree rt path mode w = (w1, OErr e)) /\
+  (forall e, r = OErr e -> os_errno e <> errno_EEXIST -> ensure_tree rt path mode w = (w1, OErr e)) /\
   (forall x, r = OExn x -> ensure_tree rt path mode w = (w1, OExn x)).
 Proof. exact (@ensure_tree_errno_filter). Qed.
 Print Assumptions C20_ensure_tree_errno_filter.
 
-(* For every outcome of the remove callable — every errno e: success iff remove succeeded or
-   e = ENOENT; every other error is re-raised unchanged. *)
+(* For every outcome of the remove callable — every OSError instance e, whatever its class and
+   errno: success iff remove succeeded or e.errno = ENOENT; every other error is re-raised
+   unchanged.  Only e.errno is looked at (a user-defined OSError subclass with errno ENOENT is
+   swallowed; a FileNotFoundError whose errno was set to something else is re-raised). *)
 Theorem C20_delete_if_exists_errno_filter :
   forall (W : Type) (remove : bytes -> W -> W * ores unit) (path : bytes) (w w1 : W) (r : ores unit),
   remove path w = (w1, r) ->
   (forall u, r = OOk u -> delete_if_exists path remove w = (w1, OOk tt)) /\
-  (forall e, r = OErr e -> e = errno_ENOENT -> delete_if_exists path remove w = (w1, OOk tt)) /\
-  (forall e, r = OErr e -> e <> errno_ENOENT -> delete_if_exists path remove w = (w1, OErr e)) /\
+  (forall e, r = OErr e -> os_errno e = errno_ENOENT -> delete_if_exists path remove w = (w1, OOk tt)) /\
+  (forall e, r = OErr e -> os_errno e <> errno_ENOENT -> delete_if_exists path remove w = (w1, OErr e)) /\
   (forall x, r = OExn x -> delete_if_exists path remove w = (w1, OExn x)).
 Proof. exact (@delete_if_exists_errno_filter). Qed.
 Print Assumptions C20_delete_if_exists_errno_filter.
+
+(* the class of the OSError instance is irrelevant: same errno, same verdict *)
+Theorem C20_errno_filters_ignore_class :
+  forall (W H : Type) (rt : runtime W H) (remove1 remove2 : bytes -> W -> W * ores unit)
+         (path : bytes) (mode : Z) (w w1 : W) (c1 c2 : bytes) (n : Z),
+  (rt_makedirs rt path mode w = (w1, OErr (mk_oserror c1 n)) ->
+   ensure_tree rt path mode w = (w1, OOk tt) \/ ensure_tree rt path mode w = (w1, OErr (mk_oserror c1 n))) /\
+  (remove1 path w = (w1, OErr (mk_oserror c1 n)) -> remove2 path w = (w1, OErr (mk_oserror c2 n)) ->
+   (delete_if_exists path remove1 w = (w1, OOk tt) <-> delete_if_exists path remove2 w = (w1, OOk tt))).
+Proof. exact (@errno_filters_ignore_class). Qed.
+Print Assumptions C20_errno_filters_ignore_class.
 
 (* ------------------------------------------------------------------ already done / idempotent *)
 
@@ -163,7 +177,7 @@ Theorem C20_ensure_tree_file_in_the_way :
          (fd_key : Z -> W -> option K) (tmpdir : bytes),
   fs_contract rt key look fd_key tmpdir ->
   forall path mode w c, look (key path) w = Some (NFile c) ->
-    ensure_tree rt path mode w = (w, OErr errno_EEXIST).
+    exists e, ensure_tree rt path mode w = (w, OErr e) /\ os_errno e = errno_EEXIST.
 Proof. exact (@ensure_tree_file_in_the_way). Qed.
 Print Assumptions C20_ensure_tree_file_in_the_way.
 
